@@ -24,7 +24,7 @@ int prop_unknown(Run& run) {
     prof.max_defs = 4;
     std::vector<IWorld*> ws;
     for (auto w : worlds())
-        if (w->caps().checked && run.want_policy(w->name()))
+        if (w->caps().checked && !w->caps().map && run.want_policy(w->name())) // the stock checked configuration: checked hash + v-table pointer vector
             ws.push_back(w);
     if (ws.empty())
         return 2;
